@@ -1,4 +1,4 @@
-//! props: C01 C16
+//! props: C01 C16 C03
 //! Destructured / wildcard / renamed parameters.
 use entrait::*;
 
@@ -30,4 +30,25 @@ fn p5<D>(deps: &D, &a: &i32, &(b, c): &(i32, i32)) -> i32 {
 #[entrait(P6)]
 fn p6<D>(deps: &D, p6: i32, other: i32) -> i32 {
     p6 - other
+}
+
+/// no_deps: the first parameter is an ordinary argument, with every binding mode
+#[entrait(NdMut, no_deps)]
+fn nd_mut(mut a: u8, b: u8) -> u8 {
+    a += 1;
+    a - b
+}
+#[entrait(NdRef, no_deps)]
+fn nd_ref(ref a: u8, ref mut b: u8) -> u8 {
+    *b += 1;
+    *a - *b
+}
+#[entrait(NdAt, no_deps)]
+fn nd_at(whole @ (x, _): (u8, u8), b: u8) -> u8 {
+    whole.1 - x - b
+}
+#[entrait(DepsMutBinding)]
+fn deps_mut_binding<D: Clone>(mut deps: D, mut a: u8, ref b: u8, c @ _: u8) -> u8 {
+    a += 1;
+    a - *b - c
 }
